@@ -44,7 +44,18 @@ def gen_tree(rng, counter, depth, max_fan):
             node['children'].append(gen_tree(rng, counter, depth - rng.randint(1, max(1, depth)), max_fan))
     if rng.random() < 0.3:
         rng.shuffle(node['children'])
+    # now and then a descendant leaves the process group / session it was born into
+    for c in node['children']:
+        x = rng.random()
+        if x < 0.12:
+            c['setsid'] = True
+        elif x < 0.18:
+            c['setpgid'] = True
     return node
+
+
+def has_flag(t, flag):
+    return bool(t.get(flag)) or any(has_flag(c, flag) for c in t['children'])
 
 
 def depth_of(t):
@@ -75,7 +86,9 @@ def check_trees(ck, n):
         if t['pid'] in gone and rng.random() < 0.7:
             gone.discard(t['pid'])
         ignore = set(p for p in pids_all if p != t['pid'] and rng.random() < 0.3)
-        world = K.KillWorld(K.tree_children(t), ignore_term=ignore, gone=gone)
+        leads = rng.random() < 0.5      # was the root started as the leader of its own session?
+        world = K.KillWorld(K.tree_children(t), ignore_term=ignore, gone=gone,
+                            table=K.ProcTable().add_tree(t, root_leads_session=leads))
         worker = K.WorkerStub(world, t['pid']) if rng.random() < 0.6 else None
         handed = []
 
@@ -104,10 +117,12 @@ def check_trees(ck, n):
                 ck.count('a gone pid precedes live ones in the kill list')
         if ignore:
             ck.count('tree with processes ignoring SIGTERM')
+        if has_flag(t, 'setsid') or has_flag(t, 'setpgid'):
+            ck.count('tree with descendants in their own session / process group')
         ck.case(nontrivial_key=('tree', json.dumps(t)) if n_all >= 3 and rec else None,
                 sample={'depth': d, 'processes': n_all, 'recursively': rec, 'gone': len(gone), 'ignore_term': len(ignore)})
         inp = {'tree': t, 'recursively': rec, 'sudo': sudo, 'gone': sorted(gone), 'ignore_term': sorted(ignore),
-               'with_worker': worker is not None}
+               'with_worker': worker is not None, 'root_leads_session': leads}
         other = [(p, sg) for (p, sg) in world.signals if sg != 9]
         if kills != ans['pids'] or res[0] != -9 or other or crash:
             ck.disagree('c16.killlist: kill_process/_get_process_children vs RB.Kill.killList (SIGKILL to each, in order)',
@@ -139,7 +154,7 @@ def depth_in(t, pid, d=0):
 # ------------------------------------------------------------------ B. decision table
 def check_decisions(ck):
     rng = ck.rng
-    tree0 = {'pid': K.FAKE_BASE + 11, 'children': [{'pid': K.FAKE_BASE + 12, 'children': [
+    tree0 = {'pid': K.FAKE_BASE + 11, 'children': [{'pid': K.FAKE_BASE + 12, 'setsid': True, 'children': [
         {'pid': K.FAKE_BASE + 14, 'children': []}]}, {'pid': K.FAKE_BASE + 13, 'children': []}]}
     sits = []
     for timeout in (-1, 0, 1, 5, 599, 600, 601, 1500):
@@ -265,7 +280,7 @@ def check_real_thread(ck, n):
         def subtree_of(root_pid, sub=sub, holder=holder):
             t = {'pid': root_pid, 'children': sub['children']}
             holder['tree'] = t
-            return K.tree_children(t)
+            return t
         if mode in ('timeout',):
             outcome, timeout = drive.Outcome(hang=True, out='partial\n'), rng.choice([0.05, 0.1, 0.15])
         elif mode == 'interrupt':
@@ -482,11 +497,11 @@ def real_scenario(ck, idx, kind, depth, fanout, limit, ignore, which, results, f
         lim = limit
     else:
         # the signal arrives while BH runs; `which` = 2 puts a normal invocation before it
-        benchmarks = [('BH', 'hang2' if which == 2 else 'hang', depth, fanout)]
+        benchmarks = [('BH', 'hangat' if which >= 2 else 'hang', depth, fanout)]
         lim = -1 if limit is None else limit
-    conf = K.write_real_scenario(wd, benchmarks, lim, ignore, invocations=2 if which == 2 else 1, forker=forker)
+    conf = K.write_real_scenario(wd, benchmarks, lim, ignore, invocations=max(1, which), forker=forker)
     # with `forker` the harness also starts a multi-threaded python process whose helper is forked by a non-main thread
-    expected_nodes = K.node_count(depth, fanout) + (2 if forker else 0)
+    expected_nodes = K.node_count(depth, fanout) + (4 if forker else 0)
     sess = K.RealSession(wd, conf)
     log = os.path.join(wd, 'BH.log')
     res = {'kind': kind, 'depth': depth, 'fanout': fanout, 'limit': lim, 'ignore_timeouts': ignore, 'idx': idx,
@@ -601,7 +616,7 @@ def real_plans(rng, n, kinds=('timeout', 'INT', 'TERM')):
         d, f = shapes[i % len(shapes)] if i < len(shapes) * 3 else rng.choice(shapes)
         kind = kinds[i % len(kinds)]
         plans.append((kind, d, f, rng.choice([1, 2]) if kind == 'timeout' else rng.choice([None, None, 60]),
-                      rng.random() < 0.5, 1 if kind == 'timeout' else rng.choice([1, 1, 2]), i % 2 == 0))
+                      rng.random() < 0.5, 1 if kind == 'timeout' else rng.choice([1, 2, 2, 3]), i % 2 == 0))
     return plans
 
 
@@ -629,6 +644,8 @@ def check_parallel(ck, n):
         state = {'hang_pids': [], 'quick_started': 0, 'lock': threading.Lock(), 'sent': False}
 
         def script(rec, state=state):
+            if isinstance(rec['args'], str) and rec['args'].startswith('pgrep'):
+                return drive.Outcome(1, '')       # the scripted children have no descendants
             b = rec['args'].split()[-1]
             with state['lock']:
                 if b in hanging:
@@ -722,8 +739,9 @@ def run(ck):
     check_parallel(ck, 6 if quick else 40)
     rng = ck.rng
     if quick:
-        plans = [('timeout', 2, 2, 1, True, 1, True), ('INT', 2, 2, None, False, 2, False),
-                 ('TERM', 1, 2, None, False, 1, True)]
+        # SIGTERM while the third process of the session runs (the handler must still be ours), SIGINT at the first
+        plans = [('timeout', 2, 2, 1, True, 1, True), ('INT', 2, 2, None, False, 1, False),
+                 ('TERM', 1, 2, None, False, 3, True)]
     else:
         plans = real_plans(rng, 63)
     check_real(ck, plans)
@@ -736,7 +754,8 @@ def replay(ck, data):
         from rebench import subprocess_kill as skill
         t, rec = inp['tree'], inp['recursively']
         ans = ck.model([{'op': 'c16.killlist', 'tree': t, 'recursively': rec}])[0]
-        world = K.KillWorld(K.tree_children(t), ignore_term=inp.get('ignore_term', ()), gone=inp.get('gone', ()))
+        world = K.KillWorld(K.tree_children(t), ignore_term=inp.get('ignore_term', ()), gone=inp.get('gone', ()),
+                            table=K.ProcTable().add_tree(t, root_leads_session=inp.get('root_leads_session', False)))
         worker = K.WorkerStub(world, t['pid']) if inp.get('with_worker') else None
         crash = None
         with world.active():
